@@ -229,6 +229,16 @@ func (s *serfQueries) sendKeyResponse(q *Query, resp *nodeKeyResponse) {
 	}
 }
 
+// decodeKeyRequest decodes the request carried by a key query. The payload is
+// a message type byte followed by the encoded request; a payload too short to
+// hold the type byte is reported as an error like any other malformed request.
+func decodeKeyRequest(q *Query, req *keyRequest) error {
+	if len(q.Payload) < 1 {
+		return fmt.Errorf("empty payload")
+	}
+	return decodeMessage(q.Payload[1:], req)
+}
+
 // handleInstallKey is invoked whenever a new encryption key is received from
 // another member in the cluster, and handles the process of installing it onto
 // the memberlist keyring. This type of query may fail if the provided key does
@@ -239,7 +249,7 @@ func (s *serfQueries) handleInstallKey(q *Query) {
 	keyring := s.serf.config.MemberlistConfig.Keyring
 	req := keyRequest{}
 
-	err := decodeMessage(q.Payload[1:], &req)
+	err := decodeKeyRequest(q, &req)
 	if err != nil {
 		s.logger.Printf("[ERR] serf: Failed to decode key request: %v", err)
 		goto SEND
@@ -281,7 +291,7 @@ func (s *serfQueries) handleUseKey(q *Query) {
 	keyring := s.serf.config.MemberlistConfig.Keyring
 	req := keyRequest{}
 
-	err := decodeMessage(q.Payload[1:], &req)
+	err := decodeKeyRequest(q, &req)
 	if err != nil {
 		s.logger.Printf("[ERR] serf: Failed to decode key request: %v", err)
 		goto SEND
@@ -321,7 +331,7 @@ func (s *serfQueries) handleRemoveKey(q *Query) {
 	keyring := s.serf.config.MemberlistConfig.Keyring
 	req := keyRequest{}
 
-	err := decodeMessage(q.Payload[1:], &req)
+	err := decodeKeyRequest(q, &req)
 	if err != nil {
 		s.logger.Printf("[ERR] serf: Failed to decode key request: %v", err)
 		goto SEND
